@@ -7,6 +7,16 @@ V = Path(__file__).resolve().parent.parent
 TECH = "TLA+ specification model-checked with TLC, bound to the implementation by trace validation (TLC checks recorded implementation traces against the abstract spec) and replay of TLC-generated cases/behaviours"
 
 CLAIMS = {
+    "C05": {
+        "text": "TLC explores every history (2 threads, 2 registries, 3 spans, 1 capture slot, 8-10 operations: create with contextual/root/explicit parent, clone, drop, enter/exit in any order incl. re-entry and cross-thread, Span::current / SpanTrace capture, walk, drop, events, default switches) of the registry mechanism model (ref_count = handles + non-duplicate stack entries + open children, per-thread stack with duplicate markers, try_close/Clear releasing the parent through the thread's current default) and checks that the closes it produces are exactly the abstract ones (a span closes when no handle, no thread has it entered, all children closed; children first) - outside the history class of known finding F2, which the model must still exhibit. Binding: TLC -simulate histories (three configs incl. a dense 4-span one and one with foreign defaults) run against real Registry stacks under two recording layers + ErrorSubscriber, one process each; TLC validates every observation (close order per layer, data readable during close, stale data, live set, id uniqueness).",
+        "note": "Sequential consistency at operation granularity (the ref-count interleavings are RegistryRace, planned). Known finding F2 (close path through a foreign/absent default) is reported as KNOWN-FINDING; histories are not judged after an F2 hazard. F9 was found with this model and fixed (b906e4e).",
+        "ref": "4 (C05/C06)",
+    },
+    "C06": {
+        "text": "Same specification and traces as C05; the verdict here is A's view of current span (last entry of the thread's enter history, asserted when no span is entered twice on the thread), contextual / explicit / root parent of new spans and events, Span::current and SpanTrace captures, and scope walks (leaf to root = the parent chain) as seen by both layers and by lookups after every operation.",
+        "note": "As C05. Per-layer-filtered visibility of scopes belongs to C07.",
+        "ref": "4 (C05/C06)",
+    },
     "C03": {
         "text": "TLC explores every program (bounded: 2 threads, 2 collectors, 3 handle / 2 guard / 1 future slots, 6-8 operations drawn from new/clone/drop/enter/entered/exit in any order/in_scope/record/follows_from/Span::current/or_current/instrument/poll/drop/into_inner/panicking scopes/switch default, collectors that may reject a callsite and may hand out alias ids from clone_span) and checks that the calls span.rs/instrument.rs make (M) satisfy the property monitor (A): reference count 1+clones-closes equals the handles the program holds, enters-exits equals live guards per thread, every call reaches the creating collector, nothing follows the final close, disabled spans are silent. Binding: TLC -simulate programs (40 and 160 operations, 3 threads, 3 collectors) run against real tracing::Span and Instrumented (tracing and tracing-futures), one OS process each; TLC validates every recorded call list against the monitor.",
         "note": "Trusted: recording collector (own reference counting, optional alias ids), the executor's unsafe lifetime extension of borrowed guards (guarded by the model's preconditions). MCalls disagreement alone is drift.",
